@@ -313,6 +313,7 @@ CHECKS["C12"] = {
         H("c01.VH_step_proxyproto", {"params": {"READS": 1, "OFFSET0": 1, "MAXB": 5000, "MAXD": 1000, "ROUNDS": 2}, "timeout_ms": 60000},
           {"params": {"READS": 2, "OFFSET0": 0, "MAXB": 9000, "MAXD": 1000, "ROUNDS": 2}, "timeout_ms": 120000}, covers=["recorder ran", "more than 4096 bytes buffered"], weight=5),
         H("c11.VH_ppsend", {"PEERS": 2}, {"PEERS": 2}, covers=["header sent"], **_envonly),
+        H("c11.VH_ppsend_fail", {}, {}, covers=["header write failed"], **_envonly),
     ],
     "level_text": "bounded model checking (reduced claim): receiver - the real proxy_protocol Handler with its allow list (symbolic IPv4 peer, three CIDRs incl. an overlapping /32) accepts a header only from allowed peers, later handlers see the declared source address and GetConn returns the PROXY connection, other peers are passed through on the same connection with the stream intact; exactly the header bytes are stripped (three concrete valid headers, up to 9000 prefetched bytes); sender - dialPeers writes exactly one header per peer before any payload: v2 bytes compared field by field for a symbolic client address/port, v1 compared with the exact text line for a concrete address",
     "level_note": "the library's header parser is replaced under the engine by 'consume the (concrete, valid) header' while the native twin runs the real parser on the same bytes; TLVs, v2 LOCAL semantics beyond stripping, UNKNOWN/TCP6 families on the sender side and the library parser's behaviour on malformed headers are outside; the v1 text is produced by library code (fmt, net.IP.String) and is only checked for one concrete address",
